@@ -6,6 +6,7 @@ import (
 	"fmt"
 	"sync"
 	"sync/atomic"
+	"time"
 
 	sbase "github.com/alibaba/sentinel-golang/core/base"
 	stat "github.com/alibaba/sentinel-golang/core/stat/base"
@@ -15,6 +16,7 @@ import (
 
 const (
 	d7Base     = 1000000
+	edgeBase   = 1100000
 	corpusBase = 1500000
 	enumBase   = 2000000
 	enumStride = 1000000
@@ -63,6 +65,10 @@ func enumerate(c0 caseT, baseID int, cb func(c caseT, tr *traceT, k int)) int {
 		c := c0
 		c.ID = baseID + count
 		tr := execute(c, ch)
+		for attempt := 0; attempt < 2 && tr.SchedTimeout; attempt++ {
+			ds = nil // same prefix, fresh decision log
+			tr = execute(c, ch)
+		}
 		cb(c, tr, count)
 		count++
 		for d := len(ds) - 1; d >= len(prefix); d-- {
@@ -127,7 +133,16 @@ func stress(rep *emit.Report) {
 				}
 			}(g)
 		}
-		wg.Wait()
+		// watchdog: with a leaked lock the workers spin forever under the real scheduler
+		fin := make(chan struct{})
+		go func() { wg.Wait(); close(fin) }()
+		select {
+		case <-fin:
+		case <-time.After(120 * time.Second):
+			close(stop)
+			rep.Fail(-1, "termination", "stress-did-not-finish", fmt.Sprintf("parallel stress on geometry %v did not finish within 120 s", geo), nil)
+			return
+		}
 		close(stop)
 		rep.Count("stress_operations", G*M)
 		if bad > 0 {
